@@ -50,15 +50,20 @@ def pT (j : Json) : Except String TDesc :=
   | .str "id" => pure .id
   | _ => do pure (.affine (← pCoef (← j.getObjVal? "a")) (← pCoef (← j.getObjVal? "b")))
 
+def pOptInt (j : Json) : Except String (Option Int) :=
+  match j with
+  | .null => pure none
+  | v => do pure (some (← v.getInt?))
+
 def pSlice (j : Json) : Except String (Option OutSlice) :=
   match j with
   | .null => pure none
   | _ =>
     match j.getObjVal? "index" with
-    | .ok i => do pure (some (.index (← i.getNat?)))
+    | .ok i => do pure (some (.index (← i.getInt?)))
     | .error _ => do
-      match ← getNatList j "range" with
-      | [a, b] => pure (some (.range a b))
+      match ← getArr j "range" with
+      | [a, b] => pure (some (.range (← pOptInt a) (← pOptInt b)))
       | _ => throw "bad slice"
 
 def pEqType (s : String) : EqType :=
@@ -198,12 +203,22 @@ def answerCalls (outs : List (List Obs)) (commons : List (Option Obs))
     ("agree", Json.bool agree), ("holds", Json.bool holds.isNone), ("clause", jOptStr holds),
     ("exact_ok", Json.bool exact)] ++ extra)
 
-def optSliceEq (a : Option (Nat × Nat)) (j : Json) : Except String Bool := do
-  match j, a with
-  | .null, none => pure true
-  | .null, some _ => pure false
-  | v, some (x, y) => do pure ((← natList v) == [x, y])
-  | _, none => pure false
+/-- observed `slice_solution` (`[start|null, stop|null]`, or `null` when it is not such a slice) -/
+def pObsSS (j : Json) : Except String (Option (Option Int × Option Int)) :=
+  match j with
+  | .null => pure none
+  | v => do
+    match (← v.getArr?).toList with
+    | [a, b] => pure (some (← pOptInt a, ← pOptInt b))
+    | _ => throw "bad observed slice_solution"
+
+def jOptInt : Option Int → Json
+  | none => Json.null
+  | some i => Json.num (JsonNumber.fromInt i)
+
+def jSS : Option (Option Int × Option Int) → Json
+  | none => Json.null
+  | some (a, b) => .arr #[jOptInt a, jOptInt b]
 
 def handlePinn (j : Json) : Except String Json := do
   let cm ← pCommon j
@@ -222,7 +237,7 @@ def handlePinn (j : Json) : Except String Json := do
         | .error e => some e
         | .ok _ => none
     else none
-  let mSS : Option (Nat × Nat) :=
+  let mSS : Option (Option Int × Option Int) :=
     if mCreate.isSome then none
     else if via == "create" then
       match declaredOut (net.map Layer.spec) with
@@ -231,14 +246,24 @@ def handlePinn (j : Json) : Except String Json := do
     else match userSS with
       | some (.range a b) => some (a, b)
       | _ => none
-  let ssOk ← optSliceEq mSS (← j.getObjVal? "obs_slice_solution")
+  let oSS ← pObsSS (← j.getObjVal? "obs_slice_solution")
+  let ssOk := mSS == oSS
+  -- the stored slice_solution (as observed) selects the designated components
+  let ssHolds : Option String :=
+    match via == "create", declaredOut (net.map Layer.spec), oSS with
+    | true, .ok n, some st => checkSliceSolution userSS n st
+    | _, _, _ => none
   let wf := net.all Layer.wf
   let model := refPinn cm.eqT net cm.inT cm.outT cm.eq
   let (outs, commons, ok) := runCalls cm calls model
   let bareAllowed := !cm.inT.needsEq && !cm.outT.needsEq
   let holds := match checkCreate mCreate obsCreate with
     | some c => some c
-    | none => if mCreate.isSome then none else holdsWrapper cm.eqT bareAllowed cm.slices model calls
+    | none =>
+      if mCreate.isSome then none
+      else match ssHolds with
+        | some c => some c
+        | none => holdsWrapper cm.eqT bareAllowed cm.slices model calls
   let guards := calls.map (fun c =>
     match callInputs cm.eqT c.args with
     | .ok inputs =>
@@ -250,7 +275,7 @@ def handlePinn (j : Json) : Except String Json := do
   let agree := ok && ssOk && (mCreate == obsCreate) && wf
   pure (answerCalls outs commons agree holds exact [
     ("model_create_error", jOptStr mCreate),
-    ("model_slice_solution", match mSS with | some (a, b) => jNats [a, b] | none => Json.null),
+    ("model_slice_solution", jSS mSS),
     ("diff", .str (if !wf then "ill-formed-network" else if mCreate != obsCreate then "create-error"
       else if !ssOk then "slice-solution" else if !ok then "call-output" else ""))])
 
@@ -282,7 +307,8 @@ def handleHyper (j : Json) : Except String Json := do
   let mCreate : Option String := match mArch with | .error e => some e | .ok _ => none
   let mut diff := ""
   if mCreate != obsCreate then diff := "create-error"
-  let mut mSS : Option (Nat × Nat) := none
+  let mut mSS : Option (Option Int × Option Int) := none
+  let mut ssHolds : Option String := none
   if mCreate.isNone then
     if via == "create" then
       match declaredOut innerSpec with
@@ -291,7 +317,11 @@ def handleHyper (j : Json) : Except String Json := do
     else match userSS with
       | some (.range a b) => mSS := some (a, b)
       | _ => pure ()
-    if !(← optSliceEq mSS (← j.getObjVal? "obs_slice_solution")) then diff := "slice-solution"
+    let oSS ← pObsSS (← j.getObjVal? "obs_slice_solution")
+    if mSS != oSS then diff := "slice-solution"
+    match via == "create", declaredOut innerSpec, oSS with
+    | true, .ok n, some st => ssHolds := checkSliceSolution userSS n st
+    | _, _, _ => pure ()
     -- leaf order rule, validated on the real pytrees
     if (← pNatMat j "obs_inner_shapes") != shapes then diff := "inner-leaf-shapes"
     if (← getNatList j "obs_cumsum") != cums then diff := "cumsum"
@@ -308,7 +338,11 @@ def handleHyper (j : Json) : Except String Json := do
   if !ok && diff == "" then diff := "call-output"
   let holds := match checkCreate mCreate obsCreate with
     | some c => some c
-    | none => if mCreate.isSome then none else holdsWrapper cm.eqT false cm.slices model calls
+    | none =>
+      if mCreate.isSome then none
+      else match ssHolds with
+        | some c => some c
+        | none => holdsWrapper cm.eqT false cm.slices model calls
   -- exactness guard: hyper-network pass, then the inner network with the produced weights
   let guards := calls.map (fun c =>
     match callInputs cm.eqT c.args, hyperInput cm.eq hyperparams with
